@@ -475,7 +475,8 @@ def rule_document_order(rep: Report, repo: Repo, r_order: str, r_module: Optiona
                     both += 1
                 if sets_default and depends:
                     default_paths += 1
-        break
+        if seen_loop:
+            break           # the module loop is the same on every path that has one
     rep.check(seen_loop and title_paths >= 1 and both == 0, mrule, where, f"named module doccomment -> writer.title ({title_paths} path(s))",
               "a named module doccomment does not become the page title exactly when it carries a name (or something else is written to the title)",
               witness="#[[[ @module my.name #]]")
